@@ -456,6 +456,9 @@ def _send_under_lock(ctx, R, roles):
         for node in g.live_nodes():
             if any(c is cs.node for c in node_calls(node)):
                 n += 1
+                if f is roles.send_locked:
+                    R.check(g.dominates([node], g.exit, exc=False), "LOCK-send", "%s|always" % f.qualname, "the send wrapper sends on every normal path",
+                            "%s can return normally without sending the message (an early return): the message is silently dropped" % f.qualname, f.loc(node.ast))
                 R.check(tl in li.held(f, node), "LOCK-send", "%s|%s" % (f.qualname, norm_stmt(node.ast)), "the message is sent inside `with self._transport_lock`",
                         "%s calls the send primitive without holding the transport lock in a `with` block: another thread's message can land between this message's header and its payload" % f.qualname, f.loc(node.ast))
     R.count("LOCK-send[%s]" % roles.tag, n, 4)
